@@ -115,10 +115,62 @@ func Discharge(r *FuncResult, o *Obligation, work string, timeoutS, seed int, mo
 	o.Status = "discharged"
 }
 
-// Smoke checks that the hypotheses of the function (all of them, at the end) are satisfiable together
-// with some path: goal `false` must not be provable. Returns "sat", "unknown" (acceptable) or "VACUOUS".
+// hasQuant reports whether a term contains a quantifier.
+func hasQuantMemo(t *Term, memo map[*Term]bool) bool {
+	if v, ok := memo[t]; ok {
+		return v
+	}
+	r := t.Op == "forall" || t.Op == "exists"
+	if !r {
+		for _, a := range t.Args {
+			if hasQuantMemo(a, memo) {
+				r = true
+				break
+			}
+		}
+	}
+	memo[t] = r
+	return r
+}
+
+// Smoke is the vacuity guard of one function. Two queries:
+//  1. the quantifier-free hypotheses alone (requires, assumes, object invariants, most library post-conditions)
+//     together with the path condition of a post-condition obligation (the function's exit): dropping the
+//     quantified hypotheses only weakens the set, so `unsat` here means the contract's assumptions are
+//     contradictory or no exit is reachable — VACUOUS; `sat` shows the quantifier-free part is consistent and
+//     an exit reachable under it;
+//  2. all hypotheses: `false` must not be provable (usually `unknown` within the budget: quantifiers).
+// Returns "VACUOUS", "sat", "qf-sat" or "unknown(...)".
 func Smoke(r *FuncResult, work string, timeoutS int) string {
 	p := r.Pool
+	memo := map[*Term]bool{}
+	var qf []*Term
+	for _, h := range r.Hyps {
+		if !hasQuantMemo(h, memo) {
+			qf = append(qf, h)
+		}
+	}
+	qfSat := false
+	{
+		hyps := append([]*Term{}, qf...)
+		// an exit: the disjunction of the path conditions of the post-condition obligations (if any)
+		var exits []*Term
+		for _, o := range r.Obls {
+			if strings.Contains(o.Name, "#post.") && !hasQuantMemo(o.PC, memo) {
+				exits = append(exits, o.PC)
+			}
+		}
+		if len(exits) > 0 {
+			hyps = append(hyps, p.Or(exits...))
+		}
+		res := Solve(work, "smokeqf."+r.Key, p.Script(hyps, "smoke (quantifier-free part, exit reachable) "+r.Key), timeoutS, 1, "race")
+		switch res.Status {
+		case "unsat":
+			return "VACUOUS"
+		case "sat":
+			qfSat = true
+		}
+	}
 	hyps := append([]*Term{}, r.Hyps...)
 	script := p.Script(hyps, "smoke "+r.Key)
 	res := Solve(work, "smoke."+r.Key, script, timeoutS, 1, "race")
@@ -127,6 +179,9 @@ func Smoke(r *FuncResult, work string, timeoutS int) string {
 		return "VACUOUS"
 	case "sat":
 		return "sat"
+	}
+	if qfSat {
+		return "qf-sat"
 	}
 	return "unknown(" + res.Status + ")"
 }
